@@ -11,6 +11,8 @@ SNext == Len(hist) < WalkLen /\ Next /\ hist' = Append(hist, Obs')
 SSpec == SInit /\ [][SNext]_svars
 Emit == Len(hist) = WalkLen => PrintT(<<"REPLAY", ToJson(hist)>>)
 SAgree == Agree
+PairsOne == {<<"A", "A">>}
+PairsSim == {<<"A", "B">>, <<"B", "AB">>, <<"_x", "A">>, <<"A", "A">>}
 ShapesAll == UNION {[1..k -> Names] : k \in 1..3}
 \* for the random walks: a few shapes, so that `read` does not crowd out the other operations
 ShapesSim == {<<"A">>, <<"A", "B">>, <<"B", "A">>, <<"A", "B", "AB">>, <<"_x", "A", "B">>, <<"AB", "_x", "A">>, <<"B", "B">>, <<"A", "AB", "A">>}
